@@ -282,14 +282,10 @@ func verifHandle(r *verifReq) (resp map[string]any) {
 	case "hashelp":
 		resp["out"] = hasHelpFlag(r.Args)
 	case "cfdump":
-		// S = Go source, S2 = pass name, Name = generator seed (decimal), Args[0] = count
+		// S = Go source, Args = pass names in order, Name = generator seed (decimal)
 		var seed int64
 		fmt.Sscan(r.Name, &seed)
-		count := 0
-		if len(r.Args) > 0 {
-			fmt.Sscan(r.Args[0], &count)
-		}
-		funcs, err := ctrlflow.VerifDump(r.S, seed, r.S2, count)
+		funcs, err := ctrlflow.VerifDump(r.S, seed, r.Args)
 		if err != nil {
 			resp["err"] = err.Error()
 		} else {
